@@ -11,9 +11,13 @@
 //	obs:<id>:<path>:<deadline>                                 cc.DoObserve in a goroutine
 //	obscancel:<id>                                             Observation.Cancel in a goroutine
 //	ping:<id>:<deadline>                                       cc.Ping in a goroutine
+//	aping:<id>                                                 cc.AsyncPing (live until its pong arrives or its cancel is called)
+//	apcancel:<id>                                              the cancel function AsyncPing returned is called
 //	write:<id>:<con|non>                                       one-way cc.WriteMessage in a goroutine
 //	ack:<id> | rst:<id> | pong:<id>                            peer answers the last message of that exchange
 //	resp:<id>:<pig|con|non>:<code>:<bodylen>:<obsseq|->        peer responds (body > 16 with block-wise on: first block)
+//	nb0:<id>:<pig|con|non>:<bodylen>:<obsseq>                  peer sends a notification that is complete in its first block:
+//	                                                           Observe + Block2 (num 0, no more), body of at most one block
 //	blk2:<id>:<num>:<more>:<pig|non>                           peer sends one more response block
 //	cont:<id>:<num>                                            peer acknowledges an uploaded block (2.31)
 //	bad:<id>                                                   peer responds with an undecodable block option
@@ -70,6 +74,7 @@ type conn interface {
 	ReleaseMessage(m *pool.Message)
 	Do(req *pool.Message) (*pool.Message, error)
 	Ping(ctx context.Context) error
+	AsyncPing(receivedPong func()) (func(), error)
 	WriteMessage(req *pool.Message) error
 	CheckExpirations(now time.Time)
 	Close() error
@@ -85,24 +90,26 @@ type sent struct {
 }
 
 type world struct {
-	mu      sync.Mutex
-	udp     bool
-	bw      bool
-	cc      conn
-	observe func(req *pool.Message, f func(*pool.Message)) (observation, error)
-	sizes   func() [8]int
-	inject  func([]byte) error
-	taken   func() []sent
-	cancels map[int]context.CancelFunc
-	calls   int
-	pings   int
-	writes  int
-	obs     map[int]observation
-	liveObs map[int]bool
-	last    map[string]sent // last request sent per token
+	mu       sync.Mutex
+	udp      bool
+	bw       bool
+	cc       conn
+	observe  func(req *pool.Message, f func(*pool.Message)) (observation, error)
+	sizes    func() [8]int
+	inject   func([]byte) error
+	taken    func() []sent
+	cancels  map[int]context.CancelFunc
+	apCancel map[int]func() // cancel functions returned by AsyncPing
+	apDone   map[int]bool   // that ping exchange is over: pong received, or cancelled
+	calls    int
+	pings    int
+	writes   int
+	obs      map[int]observation
+	liveObs  map[int]bool
+	last     map[string]sent // last request sent per token
 	lastPing sent
-	nextMid int32
-	respLen map[string]int // peer request token -> answer length
+	nextMid  int32
+	respLen  map[string]int // peer request token -> answer length
 }
 
 func tokOf(id int) message.Token {
@@ -320,6 +327,35 @@ func (w *world) apply(f []string) {
 			defer func() { recover(); w.mu.Lock(); w.pings--; w.mu.Unlock() }()
 			_ = w.cc.Ping(ctx)
 		}()
+	case f[0] == "aping" && len(f) == 2:
+		id := atoi(f[1])
+		w.mu.Lock()
+		w.pings++
+		w.mu.Unlock()
+		go func() {
+			defer func() {
+				if r := recover(); r != nil {
+					w.apEnd(id)
+				}
+			}()
+			cancel, err := w.cc.AsyncPing(func() { w.apEnd(id) })
+			if err != nil {
+				w.apEnd(id)
+				return
+			}
+			w.mu.Lock()
+			w.apCancel[id] = cancel
+			w.mu.Unlock()
+		}()
+	case f[0] == "apcancel" && len(f) == 2:
+		id := atoi(f[1])
+		w.mu.Lock()
+		cancel := w.apCancel[id]
+		w.mu.Unlock()
+		if cancel != nil {
+			cancel()
+			w.apEnd(id)
+		}
 	case f[0] == "write" && len(f) == 3:
 		id := atoi(f[1])
 		ctx, cancel := ctxFor(0)
@@ -387,6 +423,17 @@ func (w *world) apply(f []string) {
 				m.SetOptionUint32(message.Size2, uint32(blen))
 			}
 		})
+	case f[0] == "nb0" && len(f) == 5:
+		id, kind, blen := atoi(f[1]), f[2], atoi(f[3])
+		if blen > 16 {
+			blen = 16
+		}
+		w.respond(id, kind, codes.Content, body(blen), func(m *pool.Message) {
+			if f[4] != "-" {
+				m.SetObserve(uint32(atoi(f[4])))
+			}
+			m.SetOptionUint32(message.Block2, blockVal(0, false))
+		})
 	case f[0] == "blk2" && len(f) == 5:
 		id, num, more := atoi(f[1]), atoi(f[2]), f[3] == "1"
 		w.respond(id, f[4], codes.Content, body(16), func(m *pool.Message) {
@@ -451,9 +498,40 @@ func (w *world) apply(f []string) {
 		for _, c := range w.cancels {
 			c()
 		}
+		w.abandonPings()
 	case f[0] == "settle":
 	default:
 		panic("bad-op " + strings.Join(f, ":"))
+	}
+}
+
+// apEnd: the asynchronous ping `id` is over (its pong was delivered, it was cancelled, or it could not be sent)
+func (w *world) apEnd(id int) {
+	w.mu.Lock()
+	defer w.mu.Unlock()
+	if !w.apDone[id] {
+		w.apDone[id] = true
+		w.pings--
+	}
+}
+
+// abandonPings: the caller gives up every asynchronous ping that has not been answered, by calling the cancel function
+// AsyncPing returned (its obligation).  For a ping whose pong was delivered nothing is called: that exchange is over.
+func (w *world) abandonPings() {
+	w.mu.Lock()
+	var todo []int
+	for id := range w.apCancel {
+		if !w.apDone[id] {
+			todo = append(todo, id)
+		}
+	}
+	w.mu.Unlock()
+	for _, id := range todo {
+		w.mu.Lock()
+		c := w.apCancel[id]
+		w.mu.Unlock()
+		c()
+		w.apEnd(id)
 	}
 }
 
@@ -477,6 +555,8 @@ func (w *world) run(ops []string) string {
 		c()
 	}
 	synctest.Wait()
+	w.abandonPings()
+	synctest.Wait()
 	for i := 0; i < 12; i++ {
 		time.Sleep(45 * time.Second)
 		w.cc.CheckExpirations(time.Now())
@@ -488,7 +568,7 @@ func (w *world) run(ops []string) string {
 }
 
 func newWorld(udp, bw bool) *world {
-	return &world{udp: udp, bw: bw, cancels: map[int]context.CancelFunc{}, obs: map[int]observation{}, liveObs: map[int]bool{},
+	return &world{udp: udp, bw: bw, cancels: map[int]context.CancelFunc{}, apCancel: map[int]func(){}, apDone: map[int]bool{}, obs: map[int]observation{}, liveObs: map[int]bool{},
 		last: map[string]sent{}, nextMid: 40000, respLen: map[string]int{}}
 }
 
